@@ -12,8 +12,10 @@ import (
 	"sort"
 	"strconv"
 	"strings"
+	"sync"
 	"testing"
 	"testing/synctest"
+	"unicode/utf16"
 
 	"github.com/creachadair/jrpc2"
 	"github.com/creachadair/jrpc2/handler"
@@ -42,11 +44,31 @@ type Table struct {
 }
 
 func seg(s string) string {
-	if s == "e9" {
-		return "é"
+	if s == "e9" { // the non-ASCII segment: a Latin-1 letter, a slash and a character outside the BMP
+		return "é/😀"
 	}
 	return s
 }
+
+// escaped spells a name as a JSON string with every character escaped (\uXXXX, surrogate pairs, \/): the same name
+func escaped(name string) string {
+	var b strings.Builder
+	b.WriteByte('"')
+	for _, r := range name {
+		switch {
+		case r == '/':
+			b.WriteString(`\/`)
+		case r > 0xffff:
+			r1, r2 := utf16.EncodeRune(r)
+			fmt.Fprintf(&b, `\u%04x\u%04x`, r1, r2)
+		default:
+			fmt.Fprintf(&b, `\u%04x`, r)
+		}
+	}
+	b.WriteByte('"')
+	return b.String()
+}
+
 func join(n []string) string {
 	var p []string
 	for _, s := range n {
@@ -66,6 +88,7 @@ type seen struct {
 }
 
 type rig struct {
+	mu     sync.Mutex
 	calls  []seen
 	srv    *jrpc2.Server
 	asg    []string
@@ -101,8 +124,10 @@ func (r *rig) build(m *Mux, path string) jrpc2.Assigner {
 			p := path + "/" + name
 			hm[name] = func(ctx context.Context, req *jrpc2.Request) (any, error) {
 				inb := jrpc2.InboundRequest(ctx)
+				r.mu.Lock() // the members of a batch run concurrently
 				r.calls = append(r.calls, seen{path: p, method: req.Method(), id: req.ID(), params: req.ParamString(),
 					inbOK: inb == req, srvOK: jrpc2.ServerFromContext(ctx) == r.srv})
+				r.mu.Unlock()
 				return p, nil
 			}
 		}
@@ -199,7 +224,13 @@ func TestDispatch(t *testing.T) {
 					for _, p := range c.Path {
 						wantPath += "/" + join(p)
 					}
-					for _, note := range []bool{false, true} {
+					for vi, note := range []bool{false, true, false} {
+						if vi == 2 { // third pass: the same call with the method name spelled in escapes
+							if name == "" {
+								continue
+							}
+							mjs = []byte(escaped(name))
+						}
 						id := ""
 						txt := fmt.Sprintf(`{"jsonrpc":"2.0","method":%s,"params":{"n":%d}}`, mjs, ci)
 						if !note {
